@@ -63,7 +63,7 @@ Lemma exec_pres ps required :
   (forall s src rq s' res, In src (srcs ps) -> I s -> rec s src rq = (s', res) -> I s') ->
   forall p s s' res, I s -> exec rec ps required p s = (s', res) -> I s'.
 Proof.
-  intros Hrec. induction p as [v|e|i k IH]; intros s s' res Hs Hrun; simpl in Hrun.
+  intros Hrec. induction p as [v|e|i k IH|i k IHk h IHh]; intros s s' res Hs Hrun; simpl in Hrun.
   - inversion Hrun; subst; auto.
   - inversion Hrun; subst; auto.
   - destruct (nth_error ps i) as [q|] eqn:Eq; [|inversion Hrun; subst; auto].
@@ -75,6 +75,16 @@ Proof.
       destruct (p_typed q && negb (p_compat q v)); [inversion Hrun; subst; auto|].
       eapply IH; eauto.
     + eapply IH; eauto.
+  - (* a body that catches: whatever the forced input did, the state predicate is kept and the body goes on *)
+    destruct (nth_error ps i) as [q|] eqn:Eq; [|inversion Hrun; subst; auto].
+    destruct (negb (p_lazy q)); [inversion Hrun; subst; auto|].
+    destruct (p_src q) as [src|] eqn:Esrc.
+    + destruct (rec s src (required && p_strict q)) as [s1 r] eqn:Er.
+      assert (Hs1 : I s1) by (eapply Hrec; eauto using srcs_nth).
+      destruct r as [v|e]; [|eapply IHh; eauto].
+      destruct (p_typed q && negb (p_compat q v)); [eapply IHh; eauto|].
+      eapply IHk; eauto.
+    + eapply IHk; eauto.
 Qed.
 End Pres.
 
@@ -213,13 +223,129 @@ Qed.
 End Once.
 
 (* ---------------------------------------------------------------------------------------- *)
+(* a node that failed stays failed for the rest of the run and is not evaluated again          *)
+(* (what matters when a body catches the failure of a lazy input and the run goes on)          *)
+(* ---------------------------------------------------------------------------------------- *)
+
+Definition settled (x : status) : Prop := x = Finished \/ exists e, x = Failed e.
+Definition keep (s s' : st) : Prop := forall m, settled (stat s m) -> stat s' m = stat s m.
+
+Lemma keep_refl s : keep s s.
+Proof. intros m _. reflexivity. Qed.
+Lemma keep_trans a b c : keep a b -> keep b c -> keep a c.
+Proof. intros H1 H2 m Hm. rewrite (H2 m); [apply H1, Hm|]. rewrite (H1 m Hm). exact Hm. Qed.
+Lemma keep_set_stat s n x : stat s n = Pending -> keep s (set_stat s n x).
+Proof.
+  intros Hp m Hm. simpl. destruct (Nat.eqb m n) eqn:E; [|reflexivity].
+  apply Nat.eqb_eq in E. subst. rewrite Hp in Hm. destruct Hm as [Hm|[e Hm]]; discriminate.
+Qed.
+Lemma keep_set_stat2 s s1 n x : stat s n = Pending -> keep s s1 -> keep s (set_stat s1 n x).
+Proof.
+  intros Hp H m Hm. simpl. destruct (Nat.eqb m n) eqn:E; [|apply H, Hm].
+  apply Nat.eqb_eq in E. subst. rewrite Hp in Hm. destruct Hm as [Hm|[e Hm]]; discriminate.
+Qed.
+Lemma keep_stat_eq s s1 s2 : (forall m, stat s2 m = stat s1 m) -> keep s s1 -> keep s s2.
+Proof. intros E H m Hm. rewrite E. apply H, Hm. Qed.
+
+Section Keep.
+Variable g : graph.
+Variable inputs : list (name * val).
+
+Definition rec_K (rec : st -> name -> bool -> st * result) : Prop :=
+  forall s n r s' res, rec s n r = (s', res) -> keep s s'.
+
+Lemma run_step_K rec : rec_K rec -> rec_K (run_step g inputs rec).
+Proof.
+  intros Hrec s n r s' res Hrun. unfold run_step in Hrun.
+  assert (Hfl : forall s1 out, finish_lookup s1 n r = out -> forall m, stat (fst out) m = stat s1 m).
+  { intros s1 out <- m. unfold finish_lookup. destruct (vals s1 n); [|destruct r]; reflexivity. }
+  destruct (stat s n) eqn:Est.
+  - set (s0 := set_stat s n InProgress) in *.
+    assert (K0 : keep s s0) by (apply keep_set_stat; exact Est).
+    assert (Hfin : forall s1 x, keep s s1 -> finish_lookup (set_stat s1 n x) n r = (s', res) -> keep s s').
+    { intros s1 x H1 Hf. eapply keep_stat_eq; [exact (Hfl _ _ Hf)|]. apply keep_set_stat2; auto. }
+    assert (Hcalls : forall ps sa src rq sb res0, In src (srcs ps) -> keep s sa -> rec sa src rq = (sb, res0) -> keep s sb).
+    { intros ps sa src rq sb res0 _ Ha Hr. eapply keep_trans; [exact Ha|eapply Hrec; eauto]. }
+    unfold run_node in Hrun.
+    destruct (lookup n g) as [[typed nullable|v|ps body]|] eqn:Eg.
+    + destruct (lookup n inputs) as [v|]; [destruct (typed && negb (is_int v))|destruct (typed && negb nullable); [destruct r|]];
+        try (inversion Hrun; subst; apply keep_set_stat2; auto; fail);
+        (eapply Hfin; [|exact Hrun]; eapply keep_stat_eq; [|exact K0]; reflexivity).
+    + eapply Hfin; [|exact Hrun]. eapply keep_stat_eq; [|exact K0]. reflexivity.
+    + destruct (run_args rec r ps s0 []) as [s1 ar] eqn:Ea.
+      assert (K1 : keep s s1) by (eapply (run_args_pres (keep s) rec r ps (Hcalls ps)); [exact K0|exact Ea]).
+      destruct ar as [a| |e].
+      * destruct (exec rec ps r (body a) (add_log s1 n)) as [s2 r2] eqn:Ee.
+        assert (K2 : keep s s2).
+        { eapply (exec_pres (keep s) rec ps r (Hcalls ps)); [|exact Ee]. eapply keep_stat_eq; [|exact K1]. reflexivity. }
+        destruct r2 as [v|e].
+        -- eapply Hfin; [|exact Hrun]. eapply keep_stat_eq; [|exact K2]. reflexivity.
+        -- inversion Hrun; subst. apply keep_set_stat2; auto.
+      * eapply Hfin; [|exact Hrun]. exact K1.
+      * inversion Hrun; subst. apply keep_set_stat2; auto.
+    + inversion Hrun; subst. apply keep_set_stat2; auto.
+  - inversion Hrun; subst. apply keep_refl.
+  - eapply keep_stat_eq; [exact (Hfl _ _ Hrun)|apply keep_refl].
+  - inversion Hrun; subst. apply keep_refl.
+Qed.
+
+Lemma run_K fuel : rec_K (run g inputs fuel).
+Proof.
+  induction fuel as [|f IH].
+  - intros s n r s' res H. simpl in H. inversion H; subst. apply keep_refl.
+  - simpl. apply run_step_K, IH.
+Qed.
+
+Lemma run_list_K fuel : forall ns s s' e, run_list g inputs fuel s ns = (s', e) -> keep s s'.
+Proof.
+  induction ns as [|n ns IH]; intros s s' e H; simpl in H.
+  - inversion H; subst. apply keep_refl.
+  - destruct (run g inputs fuel s n true) as [s1 r] eqn:Er.
+    pose proof (run_K fuel _ _ _ _ _ Er) as K1.
+    destruct r; [eapply keep_trans; eauto|inversion H; subst; exact K1].
+Qed.
+
+(* the three facts about a failure that a body caught:  (1) asking for a failed node again returns
+   the runner's "previously failed" error and touches nothing (no body runs);  (2) whatever else
+   runs afterwards -- any request, any fuel -- the node is still failed, with the same exception,
+   and a finished node is still finished;  (3) so over a whole run no body is called twice
+   (at_most_once_l above, which holds for catching bodies as well). *)
+Lemma failed_not_retried_l :
+  (forall fuel s n r e, stat s n = Failed e -> run g inputs (S fuel) s n r = (s, Err EFailed)) /\
+  (forall fuel s n r s' res, run g inputs fuel s n r = (s', res) ->
+     forall m, (stat s m = Finished -> stat s' m = Finished) /\ (forall e, stat s m = Failed e -> stat s' m = Failed e)) /\
+  (forall fuel ns s s' x, run_list g inputs fuel s ns = (s', x) ->
+     forall m, (stat s m = Finished -> stat s' m = Finished) /\ (forall e, stat s m = Failed e -> stat s' m = Failed e)).
+Proof.
+  split; [|split].
+  - intros fuel s n r e H. simpl. unfold run_step. rewrite H. reflexivity.
+  - intros fuel s n r s' res H m. pose proof (run_K fuel _ _ _ _ _ H m) as K. split.
+    + intros Hm. rewrite K; [exact Hm|left; exact Hm].
+    + intros e Hm. rewrite K; [exact Hm|right; eauto].
+  - intros fuel ns s s' x H m. pose proof (run_list_K fuel _ _ _ _ H m) as K. split.
+    + intros Hm. rewrite K; [exact Hm|left; exact Hm].
+    + intros e Hm. rewrite K; [exact Hm|right; eauto].
+Qed.
+End Keep.
+
+(* ---------------------------------------------------------------------------------------- *)
 (* generic, result-sensitive: I holds after a normal return, E e after an error e             *)
 (* ---------------------------------------------------------------------------------------- *)
 
 (* a Raise reachable in a body *)
 Inductive raises : prog -> exn -> Prop :=
 | raises_here e : raises (Raise e) e
-| raises_k i k v e : raises (k v) e -> raises (Force i k) e.
+| raises_k i k v e : raises (k v) e -> raises (Force i k) e
+| raises_tk i k h v e : raises (k v) e -> raises (TryForce i k h) e
+| raises_th i k h x e : raises (h x) e -> raises (TryForce i k h) e.
+
+(* bodies that do not catch the exceptions of their lazy inputs *)
+Inductive nocatch : prog -> Prop :=
+| nc_ret v : nocatch (Ret v)
+| nc_raise e : nocatch (Raise e)
+| nc_force i k : (forall v, nocatch (k v)) -> nocatch (Force i k).
+Definition catch_free (g : graph) : Prop :=
+  forall n ps body, In (n, Comp ps body) g -> forall a, nocatch (body a).
 
 (* the runner's own diagnostics *)
 Definition diag (e : exn) : Prop :=
@@ -266,13 +392,13 @@ Qed.
 (* the body: an exception it raises itself (a reachable Raise) satisfies E by hypothesis *)
 Lemma exec_pres2 ps required :
   (forall s src rq s' res, In src (srcs ps) -> I s -> rec s src rq = (s', res) -> post s' res) ->
-  forall p, (forall e s, raises p e -> I s -> E e s) ->
+  forall p, nocatch p -> (forall e s, raises p e -> I s -> E e s) ->
   forall s s' res, I s -> exec rec ps required p s = (s', res) -> post s' res.
 Proof.
-  intros Hrec. induction p as [v|e|i k IH]; intros Hraise s s' res Hs Hrun; simpl in Hrun.
+  intros Hrec p Hnc. induction Hnc as [v|e|i k Hk IH]; intros Hraise s s' res Hs Hrun; simpl in Hrun.
   - inversion Hrun; subst; simpl; auto.
   - inversion Hrun; subst; simpl. apply Hraise; [constructor|exact Hs].
-  - assert (Hk : forall v e s, raises (k v) e -> I s -> E e s).
+  - assert (Hk' : forall v e s, raises (k v) e -> I s -> E e s).
     { intros v e s0 Hr. apply Hraise. econstructor; exact Hr. }
     destruct (nth_error ps i) as [q|] eqn:Eq; [|inversion Hrun; subst; simpl; apply local_err; [diag|auto]].
     destruct (negb (p_lazy q)); [inversion Hrun; subst; simpl; apply local_err; [diag|auto]|].
@@ -307,6 +433,7 @@ Qed.
 Section Transparent.
 Variable g : graph.
 Variable inputs : list (name * val).
+Hypothesis Hcf : catch_free g.
 
 Definition Epost (e : exn) (s : st) : Prop := AllFailed e s /\ origin g e.
 Definition rec_E (rec : st -> name -> bool -> st * result) : Prop :=
@@ -358,7 +485,7 @@ Proof.
       destruct ar as [a| |e].
       * destruct (exec rec ps r (body a) (add_log s1 n)) as [s2 r2] eqn:Ee.
         assert (H2 : post NF Epost s2 r2).
-        { apply (exec_pres2 NF Epost rec diag_local ps r (Hcalls ps) (body a)) with (s := add_log s1 n); [|exact H1|exact Ee].
+        { apply (exec_pres2 NF Epost rec diag_local ps r (Hcalls ps) (body a) (Hcf n ps body (lookup_in _ _ _ Eg) a)) with (s := add_log s1 n); [|exact H1|exact Ee].
           intros e sa Hr Ha. split; [apply NF_AllFailed, Ha|].
           right. exists n, ps, body, a. split; [apply lookup_in, Eg|exact Hr]. }
         destruct r2 as [v|e]; simpl in H2.
